@@ -235,6 +235,8 @@ impl<T: RefCnt, Cfg: Config> CaS<T> for HybridStrategy<Cfg> {
                 // destructor panics, `old` is dropped during the unwinding and gives its debt slot
                 // back (a value being returned would be leaked instead).
                 drop(new);
+                // The same goes for `current` (it can be a guard passed by value).
+                drop(current);
                 return old;
             }
             // If they are still equal, put the new one in.
@@ -249,6 +251,9 @@ impl<T: RefCnt, Cfg: Config> CaS<T> for HybridStrategy<Cfg> {
                 // We just got one ref count out of the storage and we have one in old. We don't
                 // need two.
                 T::dec(old.as_ptr());
+                // Release `current` (possibly a guard passed by value) while `old` is still a
+                // local, so `old` is not leaked if a destructor panics in there.
+                drop(current);
                 return old;
             }
         }
